@@ -1,5 +1,5 @@
-import Cose.Driver.Util
-import Cose.Cbor.Decode
+import Cose.Driver.ParseVal
+import Cose.Go.Convert
 /-! Line-protocol ops for raw CBOR (C08). -/
 namespace Cose.Driver.CborOps
 open Cose.Driver Cose.Cbor
@@ -51,8 +51,33 @@ def opDec (args : List String) : String :=
       | some v => if exotic v then "unmodelled" else "ok " ++ hex (encode (normalize v))
   | _ => "bad-op"
 
+mutual
+  /-- a Go map whose labels collide after CBOR encoding (e.g. int(1) and int64(1)) has no defined encoding -/
+  def dupFree : Cbor → Bool
+    | .arr xs => dupFreeList xs
+    | .map kvs => nodupKeys kvs && dupFreePairs kvs
+    | .tag _ v => dupFree v
+    | _ => true
+  def dupFreeList : List Cbor → Bool
+    | [] => true
+    | x :: xs => dupFree x && dupFreeList xs
+  def dupFreePairs : List (Cbor × Cbor) → Bool
+    | [] => true
+    | (k, v) :: r => dupFree k && dupFree v && dupFreePairs r
+end
+
+/-- spec op: the deterministic encoding of a Go value -/
+def opEnc (args : List String) : String :=
+  match parseWhole args with
+  | none => "bad-op"
+  | some v =>
+    match Cose.Go.toCbor v with
+    | none => "unmodelled"
+    | some c => if dupFree c then "ok " ++ hex (encode c) else "unmodelled"
+
 def dispatch (op : String) (args : List String) : Option String :=
   match op with
+  | "cbor.enc" => some (opEnc args)
   | "cbor.dec" => some (opDec args)
   | _ => none
 
